@@ -20,16 +20,25 @@ func Conc(c Case) (out Case) {
 	res := make([]Case, len(subs))
 	var wg sync.WaitGroup
 	start := make(chan struct{})
-	for i, sc := range subs {
+	// lanes = 0: one goroutine per sub-case. lanes = L > 0: L goroutines, goroutine j executes the sub-cases
+	// j, j+L, j+2L, ... one after the other: what an instance leaves behind (in a pool, a cache, a
+	// package-level variable) meets the next instance of the same goroutine and the instances of the others.
+	lanes := num(c, "lanes")
+	if lanes <= 0 || lanes > len(subs) {
+		lanes = len(subs)
+	}
+	for j := 0; j < lanes; j++ {
 		wg.Add(1)
-		go func(i int, sc Case) {
+		go func(j int) {
 			defer wg.Done()
 			<-start
-			d := Drivers[str(sc, "drv")]
-			for rep := 0; rep < 1+num(c, "repeat"); rep++ {
-				res[i] = d(sc)
+			for i := j; i < len(subs); i += lanes {
+				d := Drivers[str(subs[i], "drv")]
+				for rep := 0; rep < 1+num(c, "repeat"); rep++ {
+					res[i] = d(subs[i])
+				}
 			}
-		}(i, sc)
+		}(j)
 	}
 	close(start)
 	wg.Wait()
